@@ -18,3 +18,9 @@ void drv_aw_resume(mutex::ownership *out, co_awaiter<mutex> *a) { new(out) mutex
 void drv_lock(co_awaiter<mutex> *out, mutex *m) { new(out) co_awaiter<mutex>(m->lock()); }
 bool drv_own_bool(mutex::ownership *o) { return (bool)*o; }
 }
+// blocking lock path (lock().wait(), ownership(co_awaiter&&))
+extern "C" {
+void drv_aw_sync(co_awaiter<mutex> *a) { a->sync(); }
+void drv_aw_wait(mutex::ownership *out, co_awaiter<mutex> *a) { new(out) mutex::ownership(a->wait()); }
+void drv_own_from_awaiter(mutex::ownership *out, mutex *m) { new(out) mutex::ownership(m->lock()); }
+}
